@@ -13,10 +13,10 @@ CONSTANTS
   CheckQuorumOn = FALSE
   MaxTerm = 1
   MaxLog = 3
-  MaxNet = 4
+  MaxNet = 3
   MaxCrashes = 0
   MaxProposals = 1
-  MaxDepth = 60
+  MaxDepth = 34
   AllowDrop = TRUE
   AllowDup = FALSE
   AllowAsync = FALSE
